@@ -206,9 +206,9 @@ def run(ctx):
                         "TypeScript meaning as in C01"]
     vlib.settle(ctx)
     proof = dict(proof or {})
-    proof["explanation"] = ("C02_members_are_accepted: in the tagged fragment (generic items and their instantiations included) every JSON value with distinct keys inhabiting the generated type gets rank 0 or 1 (leaf only) from the "
+    proof["explanation"] = ("C02_members_are_accepted: in the fragment deFragB (every enum representation incl. untagged enums and single untagged variants, generic items and their instantiations) every JSON value with distinct keys inhabiting the generated type gets rank 0 or 1 (leaf only) from the "
                             "acceptance model of serde's Deserialize (Model/De.lean), which is compared with the real serde_json::from_str on every kept witness of the run; outside the fragment "
-                            "(untagged, flatten) the witnesses are fed to the real Deserialize (C02_kept_candidates_are_members makes a rejection a counter-example)")
+                            "(flatten) the witnesses are fed to the real Deserialize (C02_kept_candidates_are_members makes a rejection a counter-example)")
     return ctx.finish(proof=proof)
 
 
